@@ -407,6 +407,8 @@ func unionTypenameStrips(c *Case, u map[string]fedgen.Ret, frags map[string]Frag
 			case s.Spread != "":
 				f := frags[s.Spread]
 				walk(path, typ, f.Subs, union)
+			case s.On != "" && !dirIncluded(s.Dir, c.Vars):
+				// an excluded fragment asks for nothing
 			case s.On != "":
 				if _, isObj := fedgen.ObjTypes[s.On]; isObj {
 					// inside a member fragment: __typename asked here counts for that member of the enclosing union
@@ -422,6 +424,9 @@ func unionTypenameStrips(c *Case, u map[string]fedgen.Ret, frags map[string]Frag
 					walk(path, typ, s.Subs, union)
 				}
 			default:
+				if !dirIncluded(s.Dir, c.Vars) {
+					continue
+				}
 				if s.Name == "__typename" {
 					if union != nil {
 						union.all = true
@@ -496,4 +501,18 @@ func sortedSubs(l []subRequest) []subRequest {
 		return out[i].Text < out[j].Text
 	})
 	return out
+}
+
+func dirIncluded(d *Dir, vars map[string]bool) bool {
+	if d == nil {
+		return true
+	}
+	v := d.Val
+	if d.Var != "" {
+		v = vars[d.Var]
+	}
+	if d.Name == "skip" {
+		return !v
+	}
+	return v
 }
